@@ -365,10 +365,9 @@ func (pc *packetConn) Close() error {
 	// Handlers may close the connection themselves before the server does,
 	// so closing must be idempotent.
 	pc.closeOnce.Do(func() {
-		if pc.lastPacket != nil {
-			udpBufPool.Put(pc.lastPacket.pooledBuf)
-			pc.lastPacket = nil
-		}
+		// A partially consumed packet (lastPacket) is left alone: a Read() in another
+		// goroutine may be using it right now, and putting its buffer back into the
+		// pool here would hand the same buffer out twice.
 		// This will abort any active Read() from another goroutine and return EOF
 		close(pc.closed)
 		// Drain pending packets to ensure we release buffers back to the pool
